@@ -17,8 +17,8 @@ package main
 // lexical; no symbolic link below the root points outside it.
 
 import (
-	"go/token"
 	"fmt"
+	"go/token"
 	"go/types"
 	"sort"
 	"strings"
@@ -285,6 +285,148 @@ func (s *sanitiser) sanitised(v ssa.Value, at *ssa.BasicBlock, fn *ssa.Function,
 	return false, fmt.Sprintf("%T %s", v, v.Name())
 }
 
+// walkCtx: one use of a closure as the callback of filepath.Walk: directly
+// (the closure is written at the call) or through a factory (a library
+// function all of whose returns are that closure, called in the callback
+// position).
+type walkCtx struct {
+	caller *ssa.Function          // where filepath.Walk is called
+	site   ssa.CallInstruction    // the Walk call
+	root   ssa.Value              // its first argument, in caller
+	isRoot func(v ssa.Value) bool // v, inside the closure, reads the variable the walk is rooted at
+}
+
+func isWalkCall(cc *ssa.CallCommon) bool {
+	n := calleeName(cc)
+	return (n == "path/filepath.Walk" || n == "path/filepath.WalkDir") && len(cc.Args) == 2
+}
+
+func walkContexts(c *Ctx, fn *ssa.Function) []walkCtx {
+	var out []walkCtx
+	par := fn.Parent()
+	if par == nil {
+		return nil
+	}
+	strip := func(v ssa.Value) ssa.Value {
+		if ct, ok := v.(*ssa.ChangeType); ok {
+			return ct.X
+		}
+		return v
+	}
+	// direct
+	eachCall(par, func(site ssa.CallInstruction) {
+		cc := site.Common()
+		if !isWalkCall(cc) {
+			return
+		}
+		if mc, ok := strip(cc.Args[1]).(*ssa.MakeClosure); ok && mc.Fn == fn {
+			root := cc.Args[0]
+			out = append(out, walkCtx{caller: par, site: site, root: root, isRoot: func(v ssa.Value) bool { return sameCell(v, root, fn) }})
+		}
+	})
+	if len(out) > 0 {
+		return out
+	}
+	// factory: every return of par is a closure over fn
+	var mcs []*ssa.MakeClosure
+	factory := true
+	nret := 0
+	for _, b := range par.Blocks {
+		if b == par.Recover {
+			continue
+		}
+		ret, ok := b.Instrs[len(b.Instrs)-1].(*ssa.Return)
+		if !ok {
+			continue
+		}
+		nret++
+		if len(ret.Results) != 1 {
+			factory = false
+			continue
+		}
+		mc, ok := strip(ret.Results[0]).(*ssa.MakeClosure)
+		if !ok || mc.Fn != fn {
+			factory = false
+			continue
+		}
+		mcs = append(mcs, mc)
+	}
+	if !factory || nret == 0 || len(mcs) == 0 {
+		return nil
+	}
+	// which parameter of the factory a free variable of the closure holds
+	paramOfFreeVar := func(fv *ssa.FreeVar) int {
+		idx := -1
+		for i, f := range fn.FreeVars {
+			if f == fv {
+				idx = i
+			}
+		}
+		if idx < 0 {
+			return -1
+		}
+		res := -1
+		for _, mc := range mcs {
+			if idx >= len(mc.Bindings) {
+				return -1
+			}
+			al, ok := mc.Bindings[idx].(*ssa.Alloc)
+			if !ok {
+				return -1
+			}
+			k, stores := -1, 0
+			for _, f := range withClosures(par) {
+				eachInstr(f, func(_ *ssa.BasicBlock, in ssa.Instruction) {
+					if st, ok := in.(*ssa.Store); ok && (st.Addr == ssa.Value(al) || st.Addr == ssa.Value(fv)) {
+						stores++
+						if prm, ok := st.Val.(*ssa.Parameter); ok && f == par {
+							k = paramIndex(par, prm)
+						}
+					}
+				})
+			}
+			if stores != 1 || k < 0 || (res >= 0 && res != k) {
+				return -1
+			}
+			res = k
+		}
+		return res
+	}
+	for _, e := range c.CG().In[par] {
+		if e.Site == nil || !c.P.InModule(e.Caller) {
+			continue
+		}
+		fcall, ok := e.Site.(*ssa.Call)
+		if !ok {
+			continue
+		}
+		eachCall(e.Caller, func(site ssa.CallInstruction) {
+			cc := site.Common()
+			if !isWalkCall(cc) || strip(cc.Args[1]) != ssa.Value(fcall) {
+				return
+			}
+			root := cc.Args[0]
+			out = append(out, walkCtx{caller: e.Caller, site: site, root: root, isRoot: func(v ssa.Value) bool {
+				ld, ok := v.(*ssa.UnOp)
+				if !ok || ld.Op != token.MUL {
+					return false
+				}
+				fv, ok := ld.X.(*ssa.FreeVar)
+				if !ok {
+					return false
+				}
+				k := paramOfFreeVar(fv)
+				if k < 0 || k >= len(fcall.Common().Args) {
+					return false
+				}
+				a := fcall.Common().Args[k]
+				return a == root || sameCell(a, root, e.Caller)
+			}})
+		})
+	}
+	return out
+}
+
 // relativeBelow: v is the error-free result of filepath.Rel(B, P) where P is
 // the path parameter of a Walk callback whose walk is rooted at the very
 // value B (so P is B or lies below it), both sanitised.
@@ -311,25 +453,15 @@ func (s *sanitiser) relativeBelow(v ssa.Value, at *ssa.BasicBlock, fn *ssa.Funct
 	if !ok || fn.Parent() == nil || paramIndex(fn, prm) != 0 {
 		return false, "filepath.Rel of something other than a Walk callback's path"
 	}
-	// the walk this closure serves, and its root
-	var root ssa.Value
-	eachCall(fn.Parent(), func(site ssa.CallInstruction) {
-		cc := site.Common()
-		if n := calleeName(cc); (n == "path/filepath.Walk" || n == "path/filepath.WalkDir") && len(cc.Args) == 2 {
-			cb := cc.Args[1]
-			if ct, isCT := cb.(*ssa.ChangeType); isCT {
-				cb = ct.X
-			}
-			if mc, isMC := cb.(*ssa.MakeClosure); isMC && mc.Fn == fn {
-				root = cc.Args[0]
-			}
-		}
-	})
-	if root == nil {
+	// the walk(s) this closure serves: rooted at the very variable base reads
+	ctxs := walkContexts(s.c, fn)
+	if len(ctxs) == 0 {
 		return false, "filepath.Rel in a closure that is not a Walk callback"
 	}
-	if !sameCell(base, root, fn) {
-		return false, "filepath.Rel against a base that is not the root of the walk (the entry need not lie below it)"
+	for _, wc := range ctxs {
+		if !wc.isRoot(base) {
+			return false, "filepath.Rel against a base that is not the root of the walk (the entry need not lie below it)"
+		}
 	}
 	if ok, why := s.sanitised(target, at, fn, depth+1); !ok {
 		return false, why
@@ -516,24 +648,21 @@ func (s *sanitiser) paramSanitised(prm *ssa.Parameter, fn *ssa.Function, depth i
 	idx := paramIndex(fn, prm)
 	// Walk callback: func(path string, info, err) passed to filepath.Walk
 	if fn.Parent() != nil {
-		par := fn.Parent()
 		ok, why := false, "closure is not a Walk callback"
-		eachCall(par, func(site ssa.CallInstruction) {
-			cc := site.Common()
-			if n := calleeName(cc); (n == "path/filepath.Walk" || n == "path/filepath.WalkDir") && len(cc.Args) == 2 {
-				cb := cc.Args[1]
-				if ct, isCT := cb.(*ssa.ChangeType); isCT {
-					cb = ct.X
-				}
-				if mc, isMC := cb.(*ssa.MakeClosure); isMC && mc.Fn == fn && idx == 0 {
-					ok, why = s.sanitised(cc.Args[0], site.Block(), par, depth+1)
-					if ok {
-						why = "Walk callback path under a sanitised root"
-					}
+		ctxs := walkContexts(s.c, fn)
+		if idx == 0 && len(ctxs) > 0 {
+			ok, why = true, "Walk callback path under a sanitised root"
+			for _, wc := range ctxs {
+				if o, w := s.sanitised(wc.root, wc.site.Block(), wc.caller, depth+1); !o {
+					ok, why = false, w
 				}
 			}
-		})
-		return ok, why
+		}
+		if ok || idx == 0 || len(ctxs) == 0 {
+			return ok, why
+		}
+		// another parameter of a Walk callback: not a path
+		return false, why
 	}
 	if externallyCallable(fn) {
 		return false, "parameter " + prm.Name() + " of exported " + fnKey(fn)
